@@ -739,36 +739,38 @@ func (w *World) argAccess(P, bn string, ar int, impl *ssa.Function) {
 }
 
 func (w *World) stringCallees(P string, f *Facts) {
-	argIdx := func(impl *ssa.Function, v ssa.Value) int {
-		// v = args[k].String()
-		recv, ok := isMethodCall(v, "String")
-		if !ok {
-			return -1
-		}
-		ld, ok := recv.(*ssa.UnOp)
-		if !ok {
-			return -1
-		}
-		ia, ok := ld.X.(*ssa.IndexAddr)
-		if !ok || len(impl.Params) < 2 || ia.X != ssa.Value(impl.Params[len(impl.Params)-1]) {
-			return -1
-		}
-		k, ok := constInt(ia.Index)
-		if !ok {
-			return -1
-		}
-		return int(k)
-	}
 	for bn, callee := range map[string]string{"starts-with": "strings.HasPrefix", "contains": "strings.Contains", "substring-before": "strings.Index", "substring-after": "strings.Index"} {
 		b := f.Builtins[bn]
 		if b == nil || b.Fns[-1] == nil {
 			continue
 		}
 		impl := b.Fns[-1]
+		// the implementation read together with the helpers it hands its arguments (or a literal) to
+		view := w.flatten(impl)
+		argIdx := func(v ssa.Value) int {
+			// v = args[k].String()
+			recv, ok := isMethodCall(view.res(v), "String")
+			if !ok {
+				return -1
+			}
+			ld, ok := recv.(*ssa.UnOp)
+			if !ok {
+				return -1
+			}
+			ia, ok := ld.X.(*ssa.IndexAddr)
+			if !ok || len(impl.Params) < 2 || view.res(ia.X) != ssa.Value(impl.Params[len(impl.Params)-1]) {
+				return -1
+			}
+			k, ok := constInt(ia.Index)
+			if !ok {
+				return -1
+			}
+			return int(k)
+		}
 		ok := false
 		detail := "no call of " + callee
 		var idxCall, cutCall *ssa.Call
-		allInstrs(impl, func(in ssa.Instruction) {
+		view.all(func(in ssa.Instruction) {
 			c, isCall := in.(*ssa.Call)
 			if !isCall || staticCallee(c) == nil || !strings.HasPrefix(funcFullName(staticCallee(c)), "strings.") {
 				return
@@ -776,7 +778,7 @@ func (w *World) stringCallees(P string, f *Facts) {
 			n := funcFullName(staticCallee(c))
 			if n == "strings.Cut" && callee == "strings.Index" {
 				// the library's own "split at the first match": same search, the parts come back ready-made
-				a0, a1 := argIdx(impl, c.Call.Args[0]), argIdx(impl, c.Call.Args[1])
+				a0, a1 := argIdx(c.Call.Args[0]), argIdx(c.Call.Args[1])
 				ok = a0 == 0 && a1 == 1
 				detail = fmt.Sprintf("strings.Cut(args[%d].String(), args[%d].String())", a0, a1)
 				cutCall = c
@@ -786,7 +788,7 @@ func (w *World) stringCallees(P string, f *Facts) {
 				detail = "calls " + n + " instead of " + callee
 				return
 			}
-			a0, a1 := argIdx(impl, c.Call.Args[0]), argIdx(impl, c.Call.Args[1])
+			a0, a1 := argIdx(c.Call.Args[0]), argIdx(c.Call.Args[1])
 			ok = a0 == 0 && a1 == 1
 			detail = fmt.Sprintf("%s(args[%d].String(), args[%d].String())", callee, a0, a1)
 			idxCall = c
@@ -800,17 +802,20 @@ func (w *World) stringCallees(P string, f *Facts) {
 				wantPart = 1
 			}
 			okPart, okGuard := false, false
-			allInstrs(impl, func(in ssa.Instruction) {
+			view.all(func(in ssa.Instruction) {
 				ret, isRet := in.(*ssa.Return)
-				if !isRet || len(ret.Results) != 2 || !isNilConst(ret.Results[1]) {
+				if !isRet || len(ret.Results) == 0 {
 					return
 				}
-				ex, isEx := stripConvAll(ret.Results[0]).(*ssa.Extract)
+				if len(ret.Results) == 2 && !isNilConst(ret.Results[1]) {
+					return
+				}
+				ex, isEx := view.res(stripConvAll(ret.Results[0])).(*ssa.Extract)
 				if !isEx || ex.Tuple != ssa.Value(cutCall) {
 					return
 				}
 				okPart = ex.Index == wantPart
-				for _, a := range guardAtoms(ret.Block()) {
+				for _, a := range view.guards(ret.Block()) {
 					if g, ok := a.V.(*ssa.Extract); ok && g.Tuple == ssa.Value(cutCall) && g.Index == 2 && a.Pol {
 						okGuard = true
 					}
@@ -826,30 +831,37 @@ func (w *World) stringCallees(P string, f *Facts) {
 		if callee == "strings.Index" && idxCall != nil {
 			// slice shape and negative-index guard
 			okSlice, okGuard := false, false
-			allInstrs(impl, func(in ssa.Instruction) {
+			view.all(func(in ssa.Instruction) {
 				sl, isSl := in.(*ssa.Slice)
-				if !isSl || argIdx(impl, sl.X) != 0 {
+				if !isSl || argIdx(sl.X) != 0 {
 					return
 				}
-				for _, a := range guardAtoms(sl.Block()) {
+				for _, a := range view.guards(sl.Block()) {
 					if bo, ok := a.V.(*ssa.BinOp); ok && bo.X == ssa.Value(idxCall) {
 						if k, isK := constInt(bo.Y); isK && ((bo.Op == token.LSS && k == 0 && !a.Pol) || (bo.Op == token.GEQ && k == 0 && a.Pol) || (bo.Op == token.EQL && k == -1 && !a.Pol)) {
 							okGuard = true
 						}
 					}
 				}
+				var low, high ssa.Value
+				if sl.Low != nil {
+					low = view.res(sl.Low)
+				}
+				if sl.High != nil {
+					high = view.res(sl.High)
+				}
 				if bn == "substring-before" {
-					okSlice = sl.Low == nil && sl.High == ssa.Value(idxCall)
+					okSlice = low == nil && high == ssa.Value(idxCall)
 				} else {
-					if sl.High == nil && sl.Low != nil {
-						if bo, ok := sl.Low.(*ssa.BinOp); ok && bo.Op == token.ADD {
+					if high == nil && low != nil {
+						if bo, ok := low.(*ssa.BinOp); ok && bo.Op == token.ADD {
 							isLenA1 := func(v ssa.Value) bool {
 								c, ok := v.(*ssa.Call)
 								if !ok {
 									return false
 								}
 								bi, ok := c.Call.Value.(*ssa.Builtin)
-								return ok && bi.Name() == "len" && argIdx(impl, c.Call.Args[0]) == 1
+								return ok && bi.Name() == "len" && argIdx(c.Call.Args[0]) == 1
 							}
 							okSlice = (bo.X == ssa.Value(idxCall) && isLenA1(bo.Y)) || (bo.Y == ssa.Value(idxCall) && isLenA1(bo.X))
 						}
